@@ -108,8 +108,17 @@ def check_catalogue(res, g, model, desc):
         res.check("minor_names_keyed", all(mi.name == mn for mn, mi in a.minors.items()),
                   "minor allele stored under a different name", **ad)
     for k, names in keys.items():
+        mech = None
+        if len(names) > 1:
+            partials = [n for n in names if "#" in n]
+            defined = [n for n in names if "#" not in n]
+            fusion_cfgs = {majors[n].cn_config for n in names}
+            if len(partials) == len(names) - 1 and len(defined) == 1 and len(fusion_cfgs) == 1 and \
+                    str(g.cn_configs[majors[defined[0]].cn_config].kind).endswith("LEFT_FUSION") and \
+                    all(p.split("#")[0] == majors[defined[0]].cn_config for p in partials):
+                mech = "partial-duplicates-defined-fusion"
         res.check("majors_distinct", len(names) == 1,
-                  "two major alleles have the same structure and core-variant set", majors=names, **desc)
+                  "two major alleles have the same structure and core-variant set", mech=mech, majors=names, **desc)
     for cn, cfg in g.cn_configs.items():
         for an in cfg.alleles:
             res.check("config_lists_existing_alleles", an in majors and majors[an].cn_config == cn,
